@@ -24,6 +24,9 @@ type writePlan struct {
 
 func drawWrites(c *harness.Ctx, label string, maxN int) []writePlan {
 	t := c.T
+	if c.Tier == "thorough" {
+		maxN *= 2 // deeper write sequences in the thorough tier
+	}
 	n := t.Draw(label+".n", maxN+1)
 	var out []writePlan
 	for i := 0; i < n; i++ {
